@@ -610,6 +610,11 @@ func (x *gen) wordList(allowEmptyWord bool) []string {
 			l = append(l, strings.Title(w)) // capitalised twin
 		}
 	}
+	if x.g.chance(12) {
+		// two DIFFERENT words that some normalisation, or some hash, would take for one
+		pr := lookalikePairs[x.g.intn(len(lookalikePairs))]
+		l = append(l, pr[0], pr[1])
+	}
 	if allowEmptyWord && x.g.chance(4) {
 		l = append(l, "")
 	}
@@ -621,7 +626,19 @@ func (x *gen) wordList(allowEmptyWord bool) []string {
 	return l
 }
 
-var schemes = []string{"none", "first", "all", "random", "one", "", "bogus", "None", "ONE"}
+// lookalikePairs: distinct words that collapse under a normalisation the library does not perform
+// (a byte order mark, trailing white space or a carriage return stripped, NFC/NFD, a soft hyphen or
+// zero-width joiner dropped, full-width forms) or that collide under a common 32-bit string hash
+// (FNV-1a, FNV-1, CRC-32, Java's 31-multiplier, djb2). Each is two words: both are kept, each is
+// drawn with probability 1/Size().
+var lookalikePairs = [][2]string{{"staple", "\ufeffstaple"}, {"bom", "\ufeffbom"}, {"rtl", "rtl\u200f"}, {"école", "e\u0301cole"}, {"shy", "sh\u00ady"},
+	{"ab", "a\u200db"}, {"abc", "ａｂｃ"}, {"line", "line\r"}, {"pad", "pad "}, {"tab", "\ttab"}, {"nb", "\u00a0nb"}, {"Å", "Å"}, {"ﬁx", "fix"},
+	{"costarring", "liquid"}, {"declinate", "macallums"}, {"altarage", "zinke"}, {"plumless", "buckeroo"}, {"Aa", "BB"}, {"AaAa", "BBBB"}, {"AaBB", "BBAa"},
+	{"hetairas", "mentioner"}, {"heliotropes", "neurospora"}, {"stylist", "subgenera"}, {"joyful", "synaphea"}, {"dram", "vivency"}}
+
+var schemes = []string{"none", "first", "all", "random", "one", "", "bogus", "None", "ONE",
+	// a scheme name is one of five exact strings; anything else — padded, re-cased, abbreviated — selects no position
+	"all ", " first", "one\n", "random\r\n", "\u00a0random", "a ll", "rand", "firstt", "ALL", "One", "all\x00", "\ufeffone"}
 
 func (x *gen) sepSpec() string {
 	switch x.g.intn(12) {
@@ -828,6 +845,25 @@ func (x *gen) charLengthBlock() {
 			r.allow, r.exclude, r.require = 15, 16, 3
 		}
 		x.emit("charinfo r=%s", r.enc())
+	}
+	// counts at the edge of the float64 range: alphabets of 2, 4, 16 and 256 characters at the lengths
+	// where N^Length crosses 2^1024 (and 2^128, float32's edge), with a requirement that removes next
+	// to nothing and one that removes a lot
+	var b256 []rune
+	for i := 0; i < 256; i++ {
+		b256 = append(b256, rune(0x4E00+i))
+	}
+	for _, c := range []struct {
+		ac   string
+		base int
+	}{{"ab", 1024}, {"abcd", 512}, {"0123456789abcdef", 256}, {string(b256), 128}, {"ab", 128}, {"abcd", 64}} {
+		for _, d := range []int{-1, 0, 1} {
+			for _, rs := range [][]string{{"a"}, {string([]rune(c.ac)[:1]), string([]rune(c.ac)[1:2])}} {
+				var r recipeSpec
+				r.L, r.ac, r.rs = c.base+d, c.ac, rs
+				x.emit("charinfo r=%s", r.enc())
+			}
+		}
 	}
 }
 
@@ -1055,6 +1091,9 @@ func (x *gen) pickCellOps() {
 	}
 	if x.g.chance(30) {
 		words = []string{"", []string{"a", "b", "日本"}[x.g.intn(3)]}
+	} else if x.g.chance(40) {
+		pr := lookalikePairs[x.g.intn(len(lookalikePairs))]
+		words = []string{pr[0], pr[1], "zz"}[:2+x.g.intn(2)]
 	}
 	sort.Strings(words)
 	scheme := []string{"none", "", "bogus"}[x.g.intn(3)]
@@ -1122,7 +1161,7 @@ func (x *gen) slowSourceOps(pauses []int) {
 // as a complete cell of position draws for every word tuple: no position is capitalised by two
 // different raw words of the cell.
 func (x *gen) oneCellOps() {
-	pools := [][]string{{"42", "x", "y"}, {"日本", "ab"}, {"4", "5", "z"}, {"Polish", "amber", "bee"}, {"", "a", "b"}, {"ß", "x"}}
+	pools := [][]string{{"42", "x", "y"}, {"日本", "ab"}, {"4", "5", "z"}, {"Polish", "amber", "bee"}, {"ß", "x"}}
 	words := append([]string{}, pools[x.g.intn(len(pools))]...)
 	sort.Strings(words)
 	L := 2 + x.g.intn(2)
@@ -1157,6 +1196,92 @@ func (x *gen) reassignOps() {
 	}
 }
 
+// bigAlphabetBlock: alphabets and required sets of more than 256 characters, with draws that
+// pick indices at and beyond 255 (an index is not a byte).
+func (x *gen) bigAlphabetBlock() {
+	var big, big2 []rune
+	for i := 0; i < 300; i++ {
+		big = append(big, rune(0x4E00+i))
+	}
+	for i := 0; i < 270; i++ {
+		big2 = append(big2, rune(0x0400+i))
+	}
+	for _, c := range []struct {
+		ac string
+		rs []string
+	}{{string(big), nil}, {string(big), []string{string(big2)}}, {"ab", []string{string(big), "xyz"}}, {string(big) + string(big2), []string{"a"}}} {
+		var r recipeSpec
+		r.L, r.ac, r.rs = 6, c.ac, c.rs
+		n := uint32(alphabetSize(r))
+		if n < 257 {
+			continue
+		}
+		for _, t := range [][]uint32{{255, 256, 257, n - 1, 0, 1}, {n - 1, n - 2, 256, 511 % n, 512 % n, 300 % n}, {256, 256, 256, 256, 256, 256}} {
+			x.emit("chargen r=%s T=3 fr=1:1 tape=%s", r.enc(), encWords(append(append([]uint32{}, t...), 0, 1, 2, 3, 4, 5, 256, 257, 258, 259, 260, 261)))
+		}
+		x.emit("charinfo r=%s", r.enc())
+	}
+}
+
+// builtinListOps: generation from the shipped lists (thousands of words: indices beyond 255), the
+// draws scripted.
+func (x *gen) builtinListOps() {
+	for _, l := range []struct {
+		name string
+		n    uint32
+	}{{"@agilewords", uint32(len(spg.AgileWords))}, {"@agilesyllables", uint32(len(spg.AgileSyllables))}} {
+		for k := 0; k < 3; k++ {
+			scheme := []string{"none", "first", "one", "random", "all"}[x.g.intn(5)]
+			L := 2 + x.g.intn(4)
+			sep := []string{"char:45", "preset:d1", "preset:none", "char:_"}[x.g.intn(4)]
+			var t []uint32
+			if scheme == "one" {
+				t = append(t, uint32(x.g.intn(L)))
+			}
+			if scheme == "random" {
+				for i := 0; i < L; i++ {
+					t = append(t, uint32(x.g.intn(2)))
+				}
+			}
+			for i := 0; i < L; i++ {
+				t = append(t, []uint32{255, 256, 257, l.n - 1, 65535 % l.n, 65536 % l.n, uint32(x.g.intn(int(l.n))), 0}[x.g.intn(8)])
+				if sep == "preset:d1" {
+					t = append(t, uint32(x.g.intn(10)))
+				}
+			}
+			x.emit("wlgen words=%s L=%d sep=%s cap=%s tape=%s", l.name, L, sep, encCps(scheme), encWords(append(t, 1, 2, 3)))
+		}
+	}
+}
+
+// lookalikeBlock: every look-alike pair as a list of its own — constructed (both orders) and drawn
+// from as a complete pick cell: two words, each selected by exactly one of the two residues.
+func (x *gen) lookalikeBlock(cells bool) {
+	for _, pr := range lookalikePairs {
+		for _, ws := range [][]string{{pr[0], pr[1]}, {pr[1], pr[0], "zz"}} {
+			x.emit("wlnew words=%s titles=%s reps=2", encList(ws), encList(wordTitles(ws)))
+		}
+		if cells {
+			ws := []string{pr[0], pr[1]}
+			sort.Strings(ws)
+			x.emit("wlcell words=%s titles=%s L=1 sep=char:_ cap=%s", encList(ws), encList(wordTitles(ws)), encCps("none"))
+		}
+	}
+}
+
+// caseVariantCells: list entries that differ only in the case of inner letters are different words
+// with different title-cased forms (strings.Title changes the first letter of each word and nothing
+// else); complete cells under every capitalising scheme.
+func (x *gen) caseVariantCells() {
+	for _, ws := range [][]string{{"ab", "aB"}, {"mcdonald", "mcDonald"}, {"nasa", "nASA", "moon"}, {"iphone", "iPhone"}, {"éa", "éA"}, {"x-ray", "x-rAy"}} {
+		sort.Strings(ws)
+		for _, scheme := range []string{"first", "all", "one", "random"} {
+			L := 1 + x.g.intn(2)
+			x.emit("wlcell words=%s titles=%s L=%d sep=char:45 cap=%s", encList(ws), encList(wordTitles(ws)), L, encCps(scheme))
+		}
+	}
+}
+
 func (x *gen) wlnewOp(reps int) {
 	words := x.wordList(true)
 	if x.g.chance(3) {
@@ -1168,7 +1293,9 @@ func (x *gen) wlnewOp(reps int) {
 // ---------- tokens
 
 var tokPool = []string{"a", "b", "-", " ", "correct", "horse", "é", "ü", "日本", "😀", "ab", "x→y", "0", "12", "été", "𝄞𝄞",
-	"\uFFFD", "caf\uFFFD", "\u00a0", "\u2028", "%s", "\n", "\r", "end\r", "line\n", "\r\n", " ", "tab\t"}
+	"\uFFFD", "caf\uFFFD", "\u00a0", "\u2028", "%s", "\n", "\r", "end\r", "line\n", "\r\n", " ", "tab\t",
+	// what a well-meaning clean-up would strip from the front or the end of a password
+	"\ufeff", "\ufeffab", "\u200b", "\x00", " lead", "trail ", "\u200e", "\u00ad"}
 
 func (x *gen) tokValue() string {
 	switch c := x.g.intn(100); {
@@ -1884,7 +2011,9 @@ func generate(prop, tier string, seed uint64) []string {
 		rep(60, func() { x.longCapsOp() })
 		rep(25, x.pickCellOps)
 		rep(12, x.oneCellOps)
+		x.lookalikeBlock(true)
 	case "C02":
+		x.bigAlphabetBlock()
 		x.metaCharBlock()
 		x.chunkedOps(15)
 		for i := 0; i < 10*scale/scale; i++ {
@@ -1895,6 +2024,7 @@ func generate(prop, tier string, seed uint64) []string {
 		rep(400, func() { x.chargenOp(x.recipe(1), "") })
 		rep(300, func() { x.chargenOp(x.recipe(0), "") })
 	case "C03":
+		x.bigAlphabetBlock()
 		x.metaCharBlock()
 		x.soleWitnessOps()
 		for i := 0; i < 10*scale/scale; i++ {
@@ -1915,6 +2045,9 @@ func generate(prop, tier string, seed uint64) []string {
 		rep(25, func() { x.wlCellOps(1200) })
 		rep(25, x.pickCellOps)
 		rep(12, x.oneCellOps)
+		x.lookalikeBlock(true)
+		x.caseVariantCells()
+		x.builtinListOps()
 		rep(700, func() { x.wlgenOp("wlgen", "") })
 	case "C05":
 		rep(12, x.oneCellOps)
@@ -1927,10 +2060,12 @@ func generate(prop, tier string, seed uint64) []string {
 		rep(500, func() { x.wlgenOp("wlgen", "") })
 		rep(300, func() { x.wlgenOp("wlent", "") })
 		rep(15, func() { x.wlCellOps(600) })
+		x.caseVariantCells()
 		x.wlLengthBlock()
 		x.charLengthBlock()
 		rep(30, x.longCapsOp)
 	case "C07":
+		x.bigAlphabetBlock()
 		x.thirteenSetsOps()
 		x.charLengthBlock()
 		rep(12, x.cancellationOp)
@@ -1953,6 +2088,7 @@ func generate(prop, tier string, seed uint64) []string {
 				x.emit("wlent words=%s titles=%s L=%d sep=%s cap=%s tape=_", encList([]string{"aa", "bb", "cc"}), encList([]string{"Aa", "Bb", "Cc"}), L, sp, encCps(schemes[x.g.intn(5)]))
 			}
 		}
+		x.lookalikeBlock(false)
 		rep(500, func() { x.wlnewOp(8 * scale) })
 		rep(500, func() { x.wlgenOp("wlent", "") })
 	case "C09":
@@ -1962,6 +2098,8 @@ func generate(prop, tier string, seed uint64) []string {
 		rep(40, x.faultOps)
 		rep(600, x.sourceOp)
 	case "C10":
+		x.lookalikeBlock(false)
+		x.builtinListOps()
 		rep(1200, func() { x.wlnewOp(4) })
 		rep(200, func() { x.wlgenOp("wlgen", "") })
 		x.emit("wlnew words=@agilewords show=0 reps=1")
@@ -2025,6 +2163,7 @@ func generate(prop, tier string, seed uint64) []string {
 			x.slowSourceOps([]int{2500})
 		}
 	case "C16":
+		x.builtinListOps()
 		x.reassignOps()
 		// the bounded draw at the sizes of the preset alphabets (10, 7, 6, 16) and of the default
 		// alphabet, on raw words at and around the rejection limit
